@@ -246,7 +246,11 @@ def specialise_sequence_helpers(bodies):
                     defs.setdefault(st["p"]["l"], []).append(st)
         pred = None
         pred_pos = None
+        pred_item = None
         for k, a in enumerate(ct["args"]):
+            if "k" in a and isinstance(a["k"], dict) and isinstance(a["k"].get("fn"), dict):
+                pred_item, pred_pos = a["k"]["fn"], k          # a function item (`Reply::closes_sequence`) as the predicate
+                continue
             l = _bare_local(a) if "k" not in a else None
             hops = 0
             while l is not None and hops < 4:
@@ -263,8 +267,14 @@ def specialise_sequence_helpers(bodies):
                     continue
                 if rv["r"] == "agg" and rv.get("kind") == "closure" and rv.get("n") in by_id and not rv.get("ops"):
                     pred, pred_pos = by_id[rv["n"]], k
+                if rv["r"] in ("use", "cast") and "k" in rv["o"] and isinstance(rv["o"]["k"], dict) and isinstance(rv["o"]["k"].get("fn"), dict):
+                    pred_item, pred_pos = rv["o"]["k"]["fn"], k         # (`Reply::is_last as fn(&Reply) -> bool`)
                 break
-        if pred is None or pred.get("coroutine_kind") or len(pred["blocks"]) > MAX_CLOSURE_BLOCKS:
+        if pred is not None:
+            pred_item = None
+        if pred is None and pred_item is None:
+            continue
+        if pred is not None and (pred.get("coroutine_kind") or len(pred["blocks"]) > MAX_CLOSURE_BLOCKS):
             continue
         # which captured variable of the shared body is the predicate: parameter k of the helper = upvar of that name
         pname = (h["locals"][1 + pred_pos] or {}).get("name") if 1 + pred_pos < len(h["locals"]) else None
@@ -312,8 +322,15 @@ def specialise_sequence_helpers(bodies):
                 res = t["dest"]
                 if res["p"]:
                     raise _NoLower()
-                entry = lw.emit_call(("closure", pred, stub), t["args"], res["l"], t["to"], t.get("sp"), t.get("unwind"))
-                c["blocks"][i]["term"] = {"t": "goto", "to": entry, "sp": t.get("sp"), "inlined_call": pred["id"]}
+                if pred is not None:
+                    entry = lw.emit_call(("closure", pred, stub), t["args"], res["l"], t["to"], t.get("sp"), t.get("unwind"))
+                    c["blocks"][i]["term"] = {"t": "goto", "to": entry, "sp": t.get("sp"), "inlined_call": pred["id"]}
+                else:
+                    # the predicate is a named function: the indirect call becomes a direct call of it (a private helper is
+                    # then spliced in by the ordinary helper inlining)
+                    nt = {"t": "call", "f": copy.deepcopy(pred_item), "args": copy.deepcopy(t["args"]), "dest": copy.deepcopy(res),
+                          "to": t["to"], "unwind": t.get("unwind"), "sp": t.get("sp"), "fn_sp": t.get("sp")}
+                    c["blocks"][i]["term"] = nt
         except _NoLower:
             continue
         bodies.append(c)
